@@ -330,6 +330,11 @@ class SymGroupBy(Proxy):
     def aggregate(self, how):
         _use("pandas.GroupBy.aggregate")
         others = [k for k in self.frame.cols if k != self.keyname]
+        for k in (how if isinstance(how, dict) else others):
+            if k in self.frame.cols and self.frame.cols[k].kind != "f":
+                # pandas keeps an integer dtype under sum/min/max/first/... and promotes it under mean/median; the model
+                # types every aggregated column float64, which is only right for float input
+                raise Unsupported("aggregate over the non-float column %r: the dtype of the result depends on the reduction" % (k,))
         cols = {}
         if callable(how):
             for k in others:
